@@ -614,6 +614,20 @@ theorem ptrReply_not_abasis (q : Query) (qt : String) (v4 : IP) (a : AResp) : (p
   case none => split <;> simp
   all_goals simp
 
+/-- the A record denotes an IPv4 address that is not excluded under prefix `p`. -/
+def usableUnder (c : Cfg) (p : Prefix) (x : RR) : Bool :=
+  match to4 x.ip with
+  | none => false
+  | some v4 => !c.shouldExcludeAOnPrefix v4 p
+
+theorem filterMap_length_eq_filter {α β} (f : α → Option β) (l : List α) :
+    (l.filterMap f).length = (l.filter fun x => (f x).isSome).length := by
+  induction l with
+  | nil => rfl
+  | cons x t ih =>
+    cases hx : f x <;> simp [hx, ih]
+
+
 /-! ### CIDR masks bit by bit -/
 
 theorem byte_prefix_eq_iff (A B r : Nat) (hA : A < 256) (hB : B < 256) (hr : r ≤ 8) :
